@@ -68,7 +68,7 @@ type descState struct {
 // locals with several stores.
 func Desc(v ssa.Value) string {
 	st := &descState{seen: map[ssa.Value]bool{}}
-	return st.desc(v, 10)
+	return st.desc(v, 18)
 }
 
 func paramIndex(p *ssa.Parameter) int {
